@@ -140,7 +140,7 @@ def c03(ctx):
         ctx.model_check("HeapArrayMC", "HeapArrayMC.cfg", workers=8)
         if any(k["id"] == "KF-C03-1" for k in opn):
             ctx.model_check("HeapArrayMC", "HeapArrayMC_kf.cfg", expect_violation="IsOrdered")
-        design_layer(ctx, "HeapArrayTrace", [f for f in files if "sort" not in f], "design_layer_heap_array")
+        design_layer(ctx, "HeapArrayTrace", [f for f in files if "sort" not in f and ".sp." not in f], "design_layer_heap_array")
     return seq_container(ctx, "heap", "HeapTrace", [("HeapMC", "HeapMC.cfg")],
                          depth=dict(quick=3, thorough=4), shards=12, after=after)
 
@@ -193,7 +193,7 @@ def c09(ctx):
         ctx.model_check("TSTMC", "TSTMC_kf.cfg", expect_violation="IsMap")
     return seq_container(ctx, "trie", "TrieTrace", [("TrieMC", "TrieMC.cfg")],
                          depth=dict(quick=4, thorough=5), shards=12, after=after,
-                         variant_of=lambda f: "lin" if ".lin." in f else ("abc" if ".abc." in f else "tree"))
+                         variant_of=lambda f: "rnd" if ".rnd." in f else "lin" if ".lin." in f else ("abc" if ".abc." in f else "tree"))
 
 
 @handler("C19")
